@@ -646,12 +646,35 @@ func (x *Exec) rdSlice(arr, off, idx *smt.Term, es string) *smt.Term {
 	if off.IntV != nil && idx.IntV != nil {
 		return x.sel(arr, x.b.Add(off, idx), es)
 	}
+	if arr.Op == "store" && len(arr.Args) == 3 && !idx.Bound {
+		// reading a slice element right after an element store: stay in terms of
+		// slice indices (rd of the untouched array), which is what invariants and
+		// specifications talk about
+		p := arr.Args[1]
+		if p == x.b.Add(off, idx) {
+			return arr.Args[2]
+		}
+		if p.Op == "+" && len(p.Args) == 2 {
+			var j *smt.Term
+			if p.Args[0] == off {
+				j = p.Args[1]
+			} else if p.Args[1] == off {
+				j = p.Args[0]
+			}
+			if j != nil {
+				return x.b.Ite(x.b.Eq(j, idx), arr.Args[2], x.rdSlice(arr.Args[0], off, idx, es))
+			}
+		}
+	}
 	name := "rd_" + smt.Sanitize(es)
 	if !x.ufDecl[name] {
 		x.ufDecl[name] = true
 		as := fmt.Sprintf("(Array Int %s)", es)
 		x.b.Declare("fun:"+name, fmt.Sprintf("(declare-fun %s (%s Int Int) %s)", name, as, es))
 		x.b.Declare("ax:"+name, fmt.Sprintf("(assert (forall ((a %s) (o Int) (i Int)) (! (= (%s a o i) (select a (+ o i))) :pattern ((%s a o i)))))", as, name, name))
+		// consequence of the definition, stated so that a read after an element
+		// store yields a read of the untouched array (the term invariants mention)
+		x.b.Declare("ax2:"+name, fmt.Sprintf("(assert (forall ((a %s) (p Int) (v %s) (o Int) (i Int)) (! (= (%s (store a p v) o i) (ite (= p (+ o i)) v (%s a o i))) :pattern ((%s (store a p v) o i)))))", as, es, name, name, name))
 	}
 	return x.b.App(name, es, arr, off, idx)
 }
